@@ -75,3 +75,48 @@ func VerifC04_StreamHeader() {
 	data = append(data, verifBytes("tail", verifParam("tlvtail", 1))...)
 	verifC04Stream("header", data)
 }
+
+// The receive buffer filled to the brim by ONE read: 31 blocks of exactly the maximum packet size followed by a block
+// whose length field takes every value around the maximum (so that its total size may exceed it by the header
+// bytes), then a small block.  Whatever the framer decides about the odd block, it must not spin: a Read into a
+// zero-length slice returns (0, nil) for ordinary readers, forever.
+type verifC04FillReader struct {
+	data []byte
+	off  int
+}
+
+func (r *verifC04FillReader) Read(p []byte) (int, error) {
+	if r.off >= len(r.data) {
+		return 0, io.EOF
+	}
+	n := copy(p, r.data[r.off:]) // as much as fits, like a socket with a full kernel buffer
+	r.off += n
+	return n, nil
+}
+
+func VerifC04_StreamBufferFill() {
+	const maxPkt = 8800
+	nfill := 31
+	stream := make([]byte, 0, 32*maxPkt+2*maxPkt)
+	for i := 0; i < nfill; i++ {
+		stream = append(stream, 0x06, 0xfd, byte((maxPkt-4)>>8), byte((maxPkt-4)&0xff))
+		stream = append(stream, verifBytesUF("fill", maxPkt-4)...)
+	}
+	l := 8790 + verifChoice("oddlen", 21) // 8790..8810, concrete per path (the buffer arithmetic is what matters)
+	stream = append(stream, 0x06, 0xfd, byte(l>>8), byte(l))
+	stream = append(stream, verifBytesUF("odd", l)...)
+	stream = append(stream, 0x06, 0x01, 0x00)
+	rd := &verifC04FillReader{data: stream}
+	nframes := 0
+	var err error
+	verifStepBudget("C04/stream/fill-terminates", 3000000)
+	verifNoPanic("C04/stream/fill-no-panic", func() {
+		err = readTlvStream(rd, func(f []byte) { nframes++ }, nil)
+	})
+	verifStepBudget("C04/stream/fill-terminates", 0)
+	if l+4 <= maxPkt {
+		// every block is within the maximum packet size: all of them are delivered
+		verifAssert(err == nil && nframes == nfill+2, "C04/stream/fill-well-formed-blocks-are-delivered")
+	}
+	verifObserve("nframes", nframes)
+}
